@@ -100,6 +100,12 @@ static const Hand HAND[] = {
     {"sfence", 0},
     {"cpuid", 0},
     {"rdtsc", 0},
+    // long trailing comments (the instruction part is short; the physical line exceeds 100 characters, as in test/run.c)
+    {"mov rcx, rdx; x73, copying x13 here, cause x13 is needed in a reg for other than x73, namely all: , x73--x74, size: 1", CF_SAFE},
+    {"add rcx, 0x12345678 ; could be done better, if r0 has been u8 as well -- padding padding padding padding padding ret", CF_SAFE},
+    {"mov rax, 0x1122334455667788 ; a constant, followed by a rather long explanation of why this constant and no other: nop nop ret", CF_SAFE | CF_RAX},
+    {"xor r9, r9                                                                                            ; mov rax, 1", CF_SAFE},
+    {"lea r8, [r9+r10*8+0x12345678] ;;;; ---- ==== a comment of more than two hundred characters in total: lorem ipsum dolor sit amet, consectetur adipiscing elit, sed do eiusmod tempor incididunt ut labore et dolore magna aliqua", CF_SAFE},
     {"mov [ rsp + 0x48 ], rbx; saving to stack", 0},
     {"imul r11, [ rsi + 0x20 ], 0x13; x1 <- arg1[4] * 0x13", 0},
     // fillers
